@@ -5,6 +5,16 @@ Part L (layout): for every generated valid Colang 1.0 / 2.x program and every sh
   line, trailing blanks, trailing tab, (2.x) end-of-line comment; and indentation x2 / x3.
   Oracle: `parse_colang_file(..)["flows"]` equal modulo `_source`, `_source_mapping`, `source_code`.
   Which positions are admissible is defined in c13_layout.py (outside multi-line strings etc.).
+  Additional generated families (c13_blocks.py), all through the same edits and the same oracle:
+  * Colang 1.0 block forms: 10 `define <modifiers> flow` heads x 4 explicit `meta` blocks, 15 elements with a
+    parameter / example block x 2 heads, each at 8 (body step, block step) indentation units - the places
+    where the 1.0 parser synthesises lines next to the author's or hands an indented block to yaml;
+  * Colang 1.0 multi-line "..." utterances at every position of a message block; edit kind `strtrail`:
+    blanks appended to the opening / interior physical lines of a multi-line string (1.0 strips every
+    physical line of such a string, so these blanks are trailing whitespace, not content);
+  * Colang 2.x strings (doc-strings, values) whose text looks like syntax, and 24 end-of-line comment
+    *payloads* (`comment[<slug>]`: quotes, triple quotes, brackets, keywords, `#`, backslash, ...) at every
+    admissible position of these seeds and of one compact host per statement kind.
 Part E (errors): every prefix / single-char deletion / duplication / substitution (13 chars) of 12 short
   seeds per version, and every token string of length <= k over 26 tokens (bare and after a valid flow
   header), each written as x.co and loaded with `RailsConfig.from_path`.
@@ -23,6 +33,7 @@ from vf import par
 PROP = "C13"
 QUICK_MAX_LINES = 40
 CHUNK = 24
+BUNDLE = 150
 
 
 def _shuffle(tasks, seed):
@@ -35,9 +46,14 @@ def _shuffle(tasks, seed):
 
 # ------------------------------------------------------------------ part L
 def _l_seeds(tier):
+    from vf.props import c13_blocks as B
     from vf.props import c13_seeds as S
 
     seeds = [(n, "2.x", t, "gen") for n, t in S.gen_v2()] + [(n, "1.0", t, "gen") for n, t in S.gen_v1()]
+    seeds += [(n, "1.0", t, "genblocks") for n, t in B.gen_v1_blocks()]
+    seeds += [(n, "1.0", t, "genstrings") for n, t in B.gen_v1_strings()]
+    seeds += [(n, "2.x", t, "genstrings") for n, t in B.gen_v2_strings()]
+    seeds += [(n, "2.x", t, "genhosts") for n, t in B.gen_v2_payload_hosts()]
     shipped = S.shipped_files()
     n_all = len(shipped)
     if tier == "quick":
@@ -70,6 +86,11 @@ def part_l(rep, tier, deadline):
         rep.add("L_seed_lines", text.count("\n") + 1)
         if nflows == 0:
             rep.add("L_seeds_without_flows")
+        if sum(plan.values()) <= BUNDLE:
+            # small seed: all its edits in one task (the same edits; one base parse instead of one per task)
+            tasks.append((name, ver0, text, "bundle", 0, sum(plan.values())))
+            planned += sum(plan.values()) + sum(1 for n in plan.values() if n) + 2
+            continue
         for kind, n in plan.items():
             for lo in range(0, n, CHUNK):
                 tasks.append((name, ver0, text, kind, lo, min(n, lo + CHUNK)))
@@ -112,7 +133,8 @@ def part_l(rep, tier, deadline):
             continue
         ver = base[f["name"]][2]
         # parse errors are classified by the exception (+ offending token); changed flows by the kind of line
-        sig = f"L:{ver}:{f['kind']}:{f['outcome']}" + (f":{f['cls']}" if f["outcome"] == "flows-differ" else "")
+        with_cls = f["outcome"] == "flows-differ" or f["kind"].endswith("strtrail")
+        sig = f"L:{ver}:{f['kind']}:{f['outcome']}" + (f":{f['cls']}" if with_cls else "")
         c = classes.setdefault(sig, {"n": 0, "ex": None})
         c["n"] += 1
         key = (len(texts[f["name"]]), f["name"], f["pos"] if f["pos"] is not None else -1)
@@ -250,6 +272,10 @@ def run(rep, tier):
         "(expression elements keep the raw source slice) and `# c` only on lines that already have text (a comment "
         "on an empty line is a full-line comment = a statement in the 2.x grammar); 1.0: not before/after a "
         "`\\`/` or` continuation; files with tabs in leading whitespace are not scaled",
+        "additional generated families: see c13_blocks.py (1.0 block forms at 8 indentation-unit pairs; 1.0 multi-line "
+        "utterances with edit kind strtrail - blanks after the opening/interior physical lines of a multi-line string, "
+        "which Colang 1.0 strips line by line, so they are not string content; 2.x strings that look like syntax; 24 "
+        "end-of-line comment payloads on the seeds gen2s/* and gen2p/* - ` # c` alone is applied to every 2.x seed)",
         "oracle L: flows equal after removing _source, _source_mapping, source_code (user/bot message tables of "
         "1.0 are not compared: the statement is about flows)",
         "oracle E: ok | ColangParsingError whose message contains the file path (config.py raises that type for both "
@@ -269,8 +295,9 @@ def run(rep, tier):
     rep.set("distinct_nontrivial", rep.cov.get("L_changed_and_parsed", 0) + rep.cov.get("E_parse_error", 0))
     rep.set(
         "rule",
-        "L: every admissible single position and all positions at once, per edit kind, plus indentation x2/x3, for every "
-        "seed; non-trivial = the edit changed the text, the edited text parsed and the seed has >=1 flow. "
+        "L: every admissible single position and all positions at once, per edit kind (blank, blankws, trail, tab; 2.x: "
+        "comment, and every comment payload on the payload seeds; 1.0: strtrail), plus indentation x2/x3, for every "
+        "seed (generated programs incl. the block / string / payload-host families, shipped files); non-trivial = the edit changed the text, the edited text parsed and the seed has >=1 flow. "
         "E: every prefix/deletion/duplication/13-char substitution at every offset of 12 seeds per version and every "
         "token string of length <= k (bare and after a flow header); non-trivial = the load really ended in a "
         "ColangParsingError naming the file",
